@@ -80,10 +80,10 @@ def show_list(letters, ks):
     return [show(l, k) for l, k in zip(letters, ks)]
 
 
-def parse_list(strs):
+def parse_list(strs, N=0):
     ls, ks = zip(*[parse(s) for s in strs]) if len(strs) else ((), ())
-    if not len(strs):
-        return np.zeros((0, 0), dtype=np.int64), np.zeros((0,), dtype=np.int64)
+    if not len(strs):       # an empty list still acts on N qubits
+        return np.zeros((0, N), dtype=np.int64), np.zeros((0,), dtype=np.int64)
     return np.stack(ls), np.array(ks, dtype=np.int64)
 
 
